@@ -1,8 +1,9 @@
 """C14 — diagnostics point at the offending construct in the user's own file."""
 
 from props import C19
-THEOREM_MODULES = ["Hcl.Theorems.C14", "Hcl.Theorems.C14Render", "Hcl.Tie.PinsIo", "Hcl.Tie.PinsErrors", "Hcl.Tie.PinsLexer", "Hcl.Tie.PinsGrammar", "Hcl.Theorems.C14Stmts", "Hcl.Theorems.C14Diag", "Hcl.Theorems.C14DiagAll", "Hcl.Theorems.C14EndToEnd"]
-THEOREMS = {"Hcl.Theorems.C14EndToEnd": ["C14_end_to_end", "C14_end_to_end_bytes", "C14_end_to_end_string", "C14_end_to_end_names", "C14E2E.length_encodeBytes", "C14E2E.validUtf8_encodeBytes", "C14E2E.encodeBytes_of_fromUTF8?"],
+THEOREM_MODULES = ["Hcl.Theorems.C14", "Hcl.Theorems.C14Render", "Hcl.Tie.PinsIo", "Hcl.Tie.PinsErrors", "Hcl.Tie.PinsLexer", "Hcl.Tie.PinsGrammar", "Hcl.Theorems.C14Stmts", "Hcl.Theorems.C14Diag", "Hcl.Theorems.C14DiagAll", "Hcl.Theorems.C14EndToEnd", "Hcl.Tie.PinsRefs"]
+THEOREMS = {"Hcl.Tie.PinsRefs": ["Tie.PinsRefs.pinApplyToAll", "Tie.PinsRefs.pinApplyToAllMut", "Tie.PinsRefs.pinReferencedWires", "Tie.PinsRefs.pinFindReferences"],
+            "Hcl.Theorems.C14EndToEnd": ["C14_end_to_end", "C14_end_to_end_bytes", "C14_end_to_end_string", "C14_end_to_end_names", "C14E2E.length_encodeBytes", "C14E2E.validUtf8_encodeBytes", "C14E2E.encodeBytes_of_fromUTF8?"],
             "Hcl.Theorems.C14DiagAll": ["C14_diag_points_at", "C14_diag_spans_in_text", "C14_diag_spans_in_text_le", "C14_points_at_in_text", "C14_checker_points", "C14_checker_points_at", "C14_eval_after_check_unlocated", "C14_check_eval_points_at", "C14_constants_points", "C14_banks_points", "C14_actions_points"],
             "Hcl.Theorems.C14Diag": ["C14_diag_erase", "C14_diag_step1_verdict", "C14_diag_points_at_step1", "C14_diag_names_in_text"],
             "Hcl.Theorems.C14Stmts": ["C14_statements_erase", "C14_statements_erase_tokens", "C14_statement_spans", "C14_statement_names", "C14_statement_spans_in_text", "C14_statements_ordered", "C14_identifier_span"],
@@ -111,7 +112,9 @@ def judge_render(req, impl, model, spec):
         spans_ok = not verdict.startswith("diag-spans-DIFFER")
     if not spans_ok:
         model = model + " [diag-spans-DIFFER: the spans Program.newSp attaches to the diagnostics differ from those of the real Error value]"
-    return {"corr": impl == model and spans_ok, "oracle": ok, "what": what, "key": req, "cats": cats}
+    # an unstable rejection has no single text to compare with the model's: it is an oracle failure (C12), not a disagreement
+    corr = True if impl == "UNSTABLE" else (impl == model and spans_ok)
+    return {"corr": corr, "oracle": ok, "what": what, "key": req, "cats": cats}
 
 
 def judge_lex(req, impl, model, spec):
